@@ -39,3 +39,4 @@ B("C11", "lookup-demorgan", A, T, "\n                if not ((apdu.apduInvokeID 
 B("C11", "isinstance-tuple", A,
   "        elif isinstance(apdu, SimpleAckPDU) \\\n            or isinstance(apdu, ComplexAckPDU) \\\n            or isinstance(apdu, ErrorPDU) \\\n            or isinstance(apdu, RejectPDU):",
   "        elif isinstance(apdu, (SimpleAckPDU, ComplexAckPDU, ErrorPDU, RejectPDU)):")
+M("C11", "await-response-segment-timer", "appservice.py", "            self.set_state(AWAIT_RESPONSE, self.ssmSAP.applicationTimeout)\n            self.request(self.segmentAPDU)", "            self.set_state(AWAIT_RESPONSE, self.segmentTimeout)\n            self.request(self.segmentAPDU)", "C11.R6", "server forgets a segmented request while the application is still working")
